@@ -12,6 +12,7 @@ struct Exempt
   ~Exempt() { exempt--; }
 };
 void arm(long nth); // nth >= 0: the nth eligible allocation from now on fails (once); nth < 0: only count
+void arm_size(unsigned long lo, unsigned long hi); // the first eligible allocation of lo <= bytes <= hi fails (the big buffers refused by a machine short of memory)
 void disarm();
 bool fired();
 unsigned long seen(); // eligible allocations seen since arm()
